@@ -149,8 +149,20 @@ def run(tier):
                 m = oracle.parse(smi)
                 if smi in ("[H][H]", "[H]", "[O]") or (m is not None and any(a.GetSymbol() in REDOX_ELEMS for a in m.GetAtoms())):
                     redox = True
+            # what kind of redox completion was made and on which side, whatever reagent template spells it:
+            # hydrogen ([H], [H][H], a hydride donor) or oxygen ([O], a Cr / Mn oxidant)
+            sig = set()
+            for side in ("l", "r"):
+                for mid in ad[side]:
+                    smi = mols.get(str(mid), "")
+                    m = oracle.parse(smi)
+                    syms = {a.GetSymbol() for a in m.GetAtoms()} if m is not None else set()
+                    if smi in ("[H][H]", "[H]") or smi in ("[BH4-]", "[AlH4-]", "[BH3-]C#N", "N#C[BH3-]"):
+                        sig.add(side + ":H")
+                    elif smi == "[O]" or syms & {"Cr", "Mn"}:
+                        sig.add(side + ":O")
             mem.append({"input": e["argstr"], "solved": e["solved"], "by": e["by"], "l": e["arg"]["l"], "r": e["arg"]["r"],
-                        "add_l": ad["l"], "add_r": ad["r"], "reaction": e["reaction"]})
+                        "add_l": ad["l"], "add_r": ad["r"], "reaction": e["reaction"], "redox_sig": sorted(sig)})
         if len(mem) >= 2:
             events.append({"ev": "family", "id": len(events) + 1, "fam": k, "redox_template": redox, "members": mem})
     log = os.path.join(wd, "c14.ndjson")
